@@ -160,6 +160,29 @@ EvSync ==
           \o Chk(e.l1_node = nI, "NodeMirrorsContract", "L1 info leaves stored by the node", e.l1_node, nI)
   /\ l' = l + 1 /\ UNCHANGED <<t, nB, nI, ust, cnt>>
 
+(* a second node, built by the real constructor (l1infotreesync.New: configured InitialBlock at or below the block of the first
+   event, real downloader, real driver) and started on the finished history: it mirrors the contract like the first one *)
+EvSecond ==
+  /\ Is("second")
+  /\ LET e == Trace[l]
+         ctx(i) == "second node (InitialBlock " \o ToString(e.ib) \o ", first event in block " \o ToString(e.first) \o "), leaf " \o ToString(i)
+         perLeaf(i) == LET x == e.leaves[i + 1] IN
+                         Chk(x.c = "ok" /\ x.root_c = "ok", "NodeMirrorsContract", ctx(i), <<x.c, x.root_c>>, "ok")
+                         \o (IF x.c = "ok" THEN Node("L1 info leaf hash (second node)", x.leaf, LeafName(i + 1))
+                                                 \o Node("global exit root of the leaf (second node)", x.ger, GerName(i + 1)) ELSE <<>>)
+                         \o (IF x.root_c = "ok" THEN Node("L1 info root by index (second node)", x.root, RootName(i + 1)) ELSE <<>>)
+         RECURSIVE all(_)
+         all(i) == IF i >= Len(e.leaves) THEN <<>> ELSE perLeaf(i) \o all(i + 1)
+         empty == \A r \in 1..8 : ust[r] = 0
+     IN viol' = viol
+          \o Chk(e.c = "ok", "NodeMirrorsContract", "the second node reaches the tip of the chain", e.c, "ok")
+          \o Chk(e.n = nI /\ Len(e.leaves) = nI, "INFRA-SecondNode", "leaves asked", Len(e.leaves), nI)
+          \o (IF e.c = "ok" THEN all(0) ELSE <<>>)
+          \o (IF e.c # "ok" \/ e.rer_c = "skip" \/ empty THEN <<>>
+              ELSE Chk(e.rer_c = "ok", "NodeMirrorsContract", "GetLastRollupExitRoot (second node)", e.rer_c, "ok")
+                   \o (IF e.rer_c = "ok" THEN Node("last rollup exit root (second node)", e.rer, UName(ust)) ELSE <<>>))
+  /\ l' = l + 1 /\ UNCHANGED <<t, nB, nI, ust, cnt>>
+
 EvAmbiguous ==
   /\ Is("ambiguous")
   /\ viol' = viol \o <<V("INFRA-AmbiguousNames", Trace[l].what)>>
@@ -171,7 +194,7 @@ Finish ==
   /\ PrintT(<<"DONE", ToJson([lines |-> Len(Trace), traces |-> t, checked |-> cnt])>>)
   /\ l' = l + 1 /\ UNCHANGED <<t, nB, nI, ust, cnt, viol>>
 
-Next == EvCfg \/ EvProcess \/ EvBridge \/ EvLeafValue \/ EvL1Info \/ EvRollup \/ EvSync \/ EvAmbiguous \/ Finish
+Next == EvCfg \/ EvProcess \/ EvBridge \/ EvLeafValue \/ EvL1Info \/ EvRollup \/ EvSync \/ EvSecond \/ EvAmbiguous \/ Finish
 Spec == Init /\ [][Next]_vars
 
 HW == TLCSet(1, IF l > TLCGet(1) THEN l ELSE TLCGet(1))
